@@ -35,7 +35,7 @@ Proof. exact euler_deg_rad_agree. Qed.
 (* the code converts degrees with the binary64 constant pi64 = 884279719003555/281474976710656 (tie lemma
    T_euler_deg_ok: euler(deg) = euler_rad on a * pi64 / 180); with any constant k in place of PI the angle is off by
    exactly |a| |k - PI| / 180.  The numeric bound |pi64 - PI| < 1.3e-16 is NOT proved here (coq-interval proves it in
-   10 s but brings Uint63 axioms that this development does not admit); it is covered by the correspondence check. *)
+   10 s but rests on primitive-integer assumptions this development does not accept); covered by the correspondence check. *)
 Theorem C11_euler_deg_pi_constant_gap : forall a k,
   Rabs (a * k / 180 - a * PI / 180) = Rabs a * Rabs (k - PI) / 180.
 Proof. exact deg_angle_gap. Qed.
